@@ -9,7 +9,6 @@ open TF TF.Engine TF.Spec
 
 /-- Everything the correspondence needs about one query and its IR. -/
 structure RootCert (W : World) (q : Query) (ir : IRQuery) (ss : List Stage) (evs : List Ev) : Prop where
-  lim : W.lim = false
   comp_eq : ir.rootComponent = W.comp
   start : W.D.start q.rootEdge
       (Spec.completeParams (declParams W.senv [""] q.rootEdge) q.rootParams) =
@@ -35,7 +34,7 @@ theorem interp_eq_spec_of_cert (W : World) (q : Query) (ir : IRQuery) (ss : List
     (evs : List Ev) (h : RootCert W q ir ss evs) :
     (interpret W.env ir).toOption = (Spec.rows W.senv q).toOption := by
   obtain ⟨V, evs', sfs, hvs, hV, hVid, hfl⟩ := h.node.dest
-  have h0 := nodeCert_stage_nil q.root W false W.comp.root [] ss evs h.node h.lim 63
+  have h0 := nodeCert_stage_nil q.root W false W.comp.root [] ss evs h.node 63
   have hvisit : VisitOK [W.comp.root] ss :=
     (visit_node q.root W false W.comp.root [] ss evs h.node (by simpa using h.hyps.nd)
       [W.comp.root] (by simp [evVid])).1
@@ -58,7 +57,7 @@ theorem interp_eq_spec_of_cert (W : World) (q : Query) (ir : IRQuery) (ss : List
         (W.D.start ir.rootName ir.rootParams)) := by
     apply SimO.flatMapO
     intro x _
-    have := sim_node q.root W h.lim false W.comp.root [] ss evs h.node 64 63 h.fuel h.ifuel []
+    have := sim_node q.root W false W.comp.root [] ss evs h.node 64 63 h.fuel h.ifuel []
       (Ctx.new (some x)) ⟨rfl, rfl, by simp [fvKeys, Ctx.new]⟩ (by simpa using h.hyps) (fun _ => rfl)
     simp only [nodeO, hV, List.nil_append, absL_nil] at this
     rw [← hl]
